@@ -119,6 +119,11 @@ pub fn check_default(func: &str, arg: &str) -> bool {
         !arg.contains("bb")
     } else if func.ends_with("chk_never") {
         false
+    } else if func.ends_with("chkc_lower") {
+        // the argument is the Debug form of a char
+        let inner = arg.trim_matches('\'');
+        let c = if let Some(h) = inner.strip_prefix("\\u{") { u32::from_str_radix(h.trim_end_matches('}'), 16).ok().and_then(char::from_u32) } else { inner.chars().next() };
+        c.map(|c| c.is_lowercase()).unwrap_or(false)
     } else {
         true
     }
@@ -210,6 +215,10 @@ macro_rules! chk {
             check_answer(concat!("hrt::user::", stringify!($xname)), canon_of(v))
         }
     };
+}
+/// `@char` rule check with a fixed meaning: lowercase letters (a pure function of the character)
+pub fn chkc_lower(c: char) -> bool {
+    check_answer("hrt::user::chkc_lower", format!("{:?}", c))
 }
 chk!(chk0, chkc0, chkx0);
 chk!(chk1, chkc1, chkx1);
